@@ -224,7 +224,7 @@ def check(pid, tier, seed):
             broken_ties.append('translator:%s: %s' % (f, why))
 
     # 2. proof obligations
-    targets = ['BddVerif.Props.' + pid, 'drv_' + pid.lower()]
+    targets = ['BddVerif.Props.' + pid, 'BddVerif.Audit.' + pid, 'drv_' + pid.lower()]
     ok_build, out_build = lake_build(targets)
     axioms, audit_err = ({}, 'build failed') if not ok_build else audit(pid, theorems)
     discharged = 0
@@ -393,12 +393,12 @@ def setup():
     claimed = [p for p in idx if idx[p].get('claimed')]
     targets = []
     for p in claimed:
-        targets += ['BddVerif.Props.' + p, 'drv_' + p.lower()]
+        targets += ['BddVerif.Props.' + p, 'BddVerif.Audit.' + p, 'drv_' + p.lower()]
     ok, out = lake_build(targets)
     if not ok:
         print(out[-3000:])
         for p in claimed:
-            okp, outp = lake_build(['BddVerif.Props.' + p, 'drv_' + p.lower()])
+            okp, outp = lake_build(['BddVerif.Props.' + p, 'BddVerif.Audit.' + p, 'drv_' + p.lower()])
             print('lean %s: %s' % (p, 'ok' if okp else 'FAILED'))
     else:
         print('lean build ok (%d properties)' % len(claimed))
